@@ -198,12 +198,18 @@ type ServCase struct {
 	OnSession int      `json:"on_session"` // index into onSessions
 	Provider  int      `json:"provider"`
 	HeaderVal []string `json:"header_values,omitempty"`
+	// Before, if set, is a request served immediately before this one (same goroutine, another writer): nothing
+	// of it may carry over into this one.
+	Before *ServCase `json:"served_before,omitempty"`
 }
 
 var headers = [][]string{nil, {""}, {"a"}, {"a\nb"}, {"x", "y"}, {"a\r"}, {" "}}
 var onSessionNames = []string{"nil", "(nil, true)", "([t], true)", "([], true)", "(nil, false)", "([t], false)", "writes 401, (nil, false)", "([t, u], true)"}
 
 func judgeServer(c ServCase) string {
+	if c.Before != nil {
+		_ = judgeServer(*c.Before)
+	}
 	sh := Shapes[c.Shape]
 	r := newRec()
 	r.failAt = c.FailAt
@@ -236,6 +242,9 @@ func judgeServer(c ServCase) string {
 	}
 	srv.ServeHTTP(sh.Make(r), req)
 	desc := fmt.Sprintf("writer %s, Last-Event-Id %q, OnSession %s, provider mode %d", sh.Name, headers[c.Header], onSessionNames[c.OnSession], c.Provider)
+	if b := c.Before; b != nil {
+		desc += fmt.Sprintf(" (served right after: Last-Event-Id %q, OnSession %s, provider mode %d)", headers[b.Header], onSessionNames[b.OnSession], b.Provider)
+	}
 	v := func(sig, format string, args ...any) string {
 		return "C16: " + sig + "\x00" + desc + ": " + fmt.Sprintf(format, args...) + " (underlying calls: " + strings.Join(r.log, " ") + ")"
 	}
@@ -259,6 +268,9 @@ func judgeServer(c ServCase) string {
 		}
 		if strings.Join(r.log, " ") != wantLog {
 			return v("ServeHTTP writes something of its own when OnSession rejects", "expected only what OnSession wrote (%q)", wantLog)
+		}
+		if len(r.hdr) != 0 {
+			return v("ServeHTTP sets response headers of its own when OnSession rejects", "header map %v, OnSession set none", r.hdr)
 		}
 		return ""
 	}
@@ -384,6 +396,29 @@ var Check = &sqrun.Check{ID: "C16", QuickBudget: 60, ThoroughBudget: 600,
 			}
 		}
 		sessCases := cases
+		// pairs of requests: what one request leaves behind must not reach the next
+		befores := []ServCase{{Header: 2, OnSession: 4}, {Header: 2, OnSession: 6}, {Header: 2, OnSession: 1}, {Header: 2, OnSession: 2, Provider: 1}, {Header: 4, OnSession: 5, Provider: 2}}
+		for bi := range befores {
+			for si := range Shapes {
+				befores[bi].Shape = si
+				if !Shapes[si].CanFlush {
+					continue
+				}
+				for hi := range headers {
+					for oi := range onSessionNames {
+						for pm := 0; pm <= 1; pm++ {
+							b := befores[bi]
+							sc := ServCase{Shape: si, Header: hi, OnSession: oi, Provider: pm, HeaderVal: headers[hi], Before: &b}
+							cases++
+							nontriv++
+							if v := judgeServer(sc); v != "" {
+								report(v, sc)
+							}
+						}
+					}
+				}
+			}
+		}
 		for si := range Shapes {
 			for hi := range headers {
 				for oi := range onSessionNames {
@@ -406,7 +441,7 @@ var Check = &sqrun.Check{ID: "C16", QuickBudget: 60, ThoroughBudget: 600,
 		samples = append(samples, SessCase{Shape: 2, Ops: []int{0, 3, 1}, FailAt: 4, Accept: 2}.String(), ServCase{Shape: 0, Header: 3, OnSession: 3, Provider: 1})
 		cov := ev.Coverage{"evaluations": cases, "distinct_nontrivial": nontriv, "exhaustive": true, "session_cases": sessCases, "server_cases": cases - sessCases,
 			"samples": samples,
-			"rule":    fmt.Sprintf("Session: every sequence of <= %d operations from %q x %d ResponseWriter shapes (Flusher, FlushError, both, each behind one/two Unwrap layers, none) x no fault / a fault at every individual call of the underlying writer (a failing Write with every short count 0..len, a failing flush), judged on the ordered log of Header/Write/WriteHeader/Flush calls of a recording writer. Server: ServeHTTP x the same shapes x %d Last-Event-Id header values x %d OnSession behaviours x 4 provider behaviours. Non-trivial = every faulted session case and every server case.", depth, opNames, len(Shapes), len(headers), len(onSessionNames))}
+			"rule":    fmt.Sprintf("Session: every sequence of <= %d operations from %q x %d ResponseWriter shapes (Flusher, FlushError, both, each behind one/two Unwrap layers, none) x no fault / a fault at every individual call of the underlying writer (a failing Write with every short count 0..len, a failing flush), judged on the ordered log of Header/Write/WriteHeader/Flush calls of a recording writer. Server: ServeHTTP x the same shapes x %d Last-Event-Id header values x %d OnSession behaviours x 4 provider behaviours; and each such request served right after one of 5 other requests (rejected / accepted / refused by the provider, with a Last-Event-Id) on the same goroutine. Non-trivial = every faulted session case and every server case.", depth, opNames, len(Shapes), len(headers), len(onSessionNames))}
 		return &sqrun.Outcome{Level: "fault_enumeration", Coverage: cov, Assumptions: []string{
 			"a writer that only offers the void http.Flusher cannot report flush failures; flush faults are injected only where FlushError exists (and there a swallowed failure is a violation)",
 			"'the header is set only once' is observed by removing Content-Type from the header map after the first successful flush and checking it never reappears",
